@@ -16,6 +16,12 @@ def step (line : String) : String :=
     | "regrid" :: rest => Regrid.run rest
     | "tree" :: rest => Tree.run rest
     | "sh9" :: rest => SHEquiv.run rest
+    | "sh" :: rest => SH.run rest
+    | "grid" :: rest => Grid.run rest
+    | "shard" :: rest => Shard.run rest
+    | "dyn" :: rest => Dynamics.run rest
+    | "sw" :: rest => DynamicsSW.run rest
+    | "inv" :: rest => Invariants.run rest
     | _ => none
   r.getD "bad-op"
 
